@@ -107,7 +107,7 @@ fn run_phase(rep: &Report, cli: &Cli, name: &str, bias_v: i32, n: usize, make: &
 pub fn run(cli: &Cli, rep: &Report) {
     let thorough = cli.thorough();
     rep.rule(
-        "E-enum: every element of MICRO(A3,L) x GRID x V, MICRO(A3,L') x SUBGRID x V, SHAPES x MINIGRID x V, window-exactly-full shapes (-2..+2 bytes, 4 tails) x MINIGRID x 3 variants, \
+        "E-enum: every element of MICRO(A3,L) x GRID x V, MICRO(A3,L') x SUBGRID x V, SHAPES x MINIGRID x V, window-exactly-full shapes (-2..+2 bytes, 4 tails) x MINIGRID x 3 variants, every dictionary size in [4096, 4224] x echo data at distance dict_size and dict_size-1 x 3 encoder settings, \
          biased-start renormalisation cases and all LZMA2Writer operation sequences up to depth D; \
          a case is non-trivial when the input is non-empty and both encoder and decoder ran to completion \
          (distinct by hash of the case descriptor)",
@@ -199,6 +199,40 @@ pub fn run(cli: &Cli, rep: &Report) {
         }
         rep.extra("window_full", json!({"cases": wcases.len(), "window_sizes": sizes}));
         run_phase(rep, cli, "window_full", 0, wcases.len(), &|i| Some(wcases[i].clone()));
+    }
+
+    // Phase 3c: dictionary-size sweep. Window moves are aligned to 16 (the offset is rounded down), so whether the oldest
+    // byte the dictionary still covers survives a move depends on the dictionary size modulo small powers of two:
+    // every dictionary size in [4096, 4096 + 128] (thorough: + 256) x "echo" data whose rep matches lie at distance
+    // dict_size and dict_size - 1 (a fresh literal at every position = phase (mod 16), phases 0..15), across many window moves
+    {
+        let mut dcases: Vec<Case> = vec![];
+        let span = if thorough { 256 } else { 128 };
+        for dict in 4096u32..=4096 + span {
+            for (fast, bt4, nice) in [(true, false, 32u32), (true, true, 273), (false, true, 64)] {
+                if !fast && dict % 4 != 0 && !thorough {
+                    continue; // the optimising encoder (slower) on every fourth size in the quick tier
+                }
+                let o = Opts { dict, lc: 3, lp: 0, pb: 2, fast, bt4, nice, depth: 0 };
+                for back in [0usize, 1] {
+                    // the fresh literal at every position = phase (mod 16): all 16 phases for the plain fast encoder, four
+                    // for the other two settings
+                    for phase in 0..16u64 {
+                        if !(fast && !bt4) && phase % 4 != 0 {
+                            continue;
+                        }
+                        let d = dict as usize - back;
+                        let sh = vec![Seg::E(d, 300_000, 1000 + phase)];
+                        dcases.push(Case { cont: Container::LzmaRawMarker, opts: o, input: Input::Shape(sh.clone()), ops: vec![], bias: 0 });
+                        if phase == 0 {
+                            dcases.push(Case { cont: Container::Lzma2, opts: o, input: Input::Shape(sh), ops: vec![], bias: 0 });
+                        }
+                    }
+                }
+            }
+        }
+        rep.extra("dict_sweep", json!({"cases": dcases.len(), "dictionary_sizes": span + 1}));
+        run_phase(rep, cli, "dict_sweep", 0, dcases.len(), &|i| Some(dcases[i].clone()));
     }
 
     // Phase 4: renormalisation through a biased start position
